@@ -43,10 +43,27 @@ def project(label):
             "nrcvd": 0 if rc == "" else len(rc.split(",")),
             "_inclose": re.search(r'enter \|-> \{\}', label) is None or re.search(r'mid \|-> \{\}', label) is None}
 
+# ---- Registry.tla: functions over the session identities are printed as records [a |-> .., b |-> ..]
+def rec_of(label, var):
+    m = re.search(r'/\\ ' + var + r' = \[([^\]]*)\]', label)
+    return parse_rec(m.group(1)) if m else {}
+
+def project_registry(label):
+    t = re.search(r'/\\ table = \{([^}]*)\}', label)
+    table = sorted(x.strip().strip('"') for x in t.group(1).split(",") if x.strip()) if t else []
+    rs = rec_of(label, "rs")
+    nc = re.search(r'nclose \|-> \[([^\]]*)\]', label)
+    return {"table": table, "count": int(re.search(r'/\\ count = (-?\d+)', label).group(1)),
+            "rs": {k: v for k, v in rs.items() if v != "none"}, "nclose": parse_rec(nc.group(1)) if nc else {}}
+
 def main():
+    global project
     dot, out = sys.argv[1], sys.argv[2]
     maxlen = int(sys.argv[3]) if len(sys.argv) > 3 else 45
     cap = int(sys.argv[4]) if len(sys.argv) > 4 else 0
+    registry = len(sys.argv) > 5 and sys.argv[5] == "registry"
+    if registry:
+        project = project_registry
     node_re = re.compile(r'^(-?\d+) \[label="((?:[^"\\]|\\.)*)"')
     edge_re = re.compile(r'^(-?\d+) -> (-?\d+) \[label=')
     act, proj, succ, init = {}, {}, collections.defaultdict(list), None
@@ -60,7 +77,7 @@ def main():
         m = node_re.match(line)
         if m:
             nid, label = m.group(1), m.group(2).replace("\\n", " ").replace('\\"', '"').replace("\\\\", "\\")
-            h = re.search(r'hist = <<(.*)>>\s*$', label)
+            h = re.search(r'hist = <<(.*?)>>\s*(?:/\\|$)', label) if registry else re.search(r'hist = <<(.*)>>\s*$', label)
             body = h.group(1).strip() if h else ""
             if body == "":
                 init = nid
@@ -75,6 +92,8 @@ def main():
     # would wait on that listener's sync.Once (a sync.Mutex: the bubble cannot quiesce) - an artefact of parking there
     def stalls(a, b):
         x = act[b]
+        if registry:
+            return False
         return proj[a]["_inclose"] and x is not None and (x["a"] in ("poll.overlap", "poll.abort", "peerclose")
                                                          or (x["a"] == "pollwrite" and x.get("ok") is False))
     skipped = 0
@@ -141,6 +160,7 @@ def main():
             break
     dwin = any(a is not None and a.get("a") == "flush.done" for a in act.values())
     cwin = any(a is not None and a.get("a") == "appclose.wait" for a in act.values())
+    fine = any(a is not None and a.get("a") == "hs.finish" for a in act.values())
     behs = []
     for p in walks:
         b = []
@@ -148,6 +168,8 @@ def main():
             r = dict(act[n]); r["exp"] = {k: v for k, v in proj[n].items() if not k.startswith("_")}; b.append(r)
         if b and dwin:
             b[0]["dwin"] = True       # the model has the drain-listener window: the harness must hold that gate throughout
+        if b and fine:
+            b[0]["fine"] = True
         if b and cwin:
             b[0]["cwin"] = True       # .. the window between Close's test of the counter and the registration of its drain listener
         behs.append(b)
